@@ -42,6 +42,17 @@ namespace occa {
         return;
       }
 
+      if (!args.size()) {
+        // defined( , ): the first of several arguments is empty
+        source.origin
+          .from(false, thisToken.origin)
+          .printError("Expected one macro name");
+        for (tokenVector &otherArgs : allArgs) {
+          freeTokenVector(otherArgs);
+        }
+        return;
+      }
+
       token_t *token = args[0];
       if (!(token->type() & tokenType::identifier)) {
         token->origin
